@@ -33,6 +33,7 @@ def run(ctx):
     ctx.rule("R4.per-thread-per-hardware", "PIN_STATES thread_local keyed by hardware_id; spawn_threads pins inside the spawned closure before the entry point; one spawn per processor", floor=5)
     ctx.rule("R6.kernel-error-not-swallowed", "a failing sched_setaffinity is never tolerated: the binding turns every non-zero return into Err, and the platform pin diverges on every Err (otherwise the bookkeeping would record a pin the kernel refused)", floor=2)
     ctx.rule("R7.view-from-full-inventory", "SystemHardware::thread_processors answers from the pin state and the FULL processor inventory (get_processor / all_processors_slice), never from the quota-limited default set or a builder", floor=2)
+    ctx.rule("R9.table-filled-by-id", "SystemHardware's by-id processor table (what get_processor / current-processor lookups index) is filled at the index given by each processor's own id, never by enumeration position: processor ids are not positions", floor=1)
     ctx.rule("R8.pin-state-lookups-complete", "the per-thread pin-state table is looked up by hardware id over ALL entries (entry order is arbitrary: first-pin order, swap_remove) - no positional cut in PinStateMap::{get,set,remove}; the fake platform's pin overwrites the thread's previous affinity on every call", floor=4)
     ctx.rule("R5.fresh-mask", "the mask passed to the kernel is a CpuMask::new() local of that call, filled by insert() over the given processors", floor=2)
 
@@ -124,15 +125,52 @@ def run(ctx):
         ctx.ob("R3.bookkeeping-every-path", "exactly-one-update-after-pin", ok, pin.loc(),
                f"platform pin sites {len(pcall)}; update_pin_status per normal path {pc} (sites {len(ups)}); all after the pin call")
         forms = {}
-        for bb, t in ups:
-            def form(op):
-                from ..evtflow import variant_path
-                return variant_path(pin, op)[0]
-            f = (form(t["args"][1]), form(t["args"][2]))
-            gs = switch_guards(pin, bb, dom=dom)
+
+        def tuple_defs(op, depth=6):
+            """(field index, [(bb, tuple aggregate)]) when `op` reads one component of a pair built elsewhere."""
+            pl = op_place(op)
+            if pl is None or depth == 0:
+                return None
+            idx = [e["i"] for e in pl["p"] if isinstance(e, dict) and "i" in e and "v" not in e]
+            if len(idx) != len(pl["p"]) or len(idx) > 1:
+                return None
+            out = []
+            work = [(pl["l"], depth)]
+            seen = set()
+            while work:
+                l, dd = work.pop()
+                if l in seen or dd == 0:
+                    continue
+                seen.add(l)
+                for dbb, _i, kind, payload in pin.defs().get(l, []):
+                    if kind != "assign":
+                        return None
+                    rv = payload["rv"]
+                    if rv["k"] == "use" and op_place(rv["op"]) is not None:
+                        p2 = op_place(rv["op"])
+                        i2 = [e["i"] for e in p2["p"] if isinstance(e, dict) and "i" in e and "v" not in e]
+                        if len(i2) != len(p2["p"]):
+                            return None
+                        if i2 and idx:
+                            return None
+                        if i2:
+                            idx[:] = i2
+                        work.append((p2["l"], dd - 1))
+                    elif rv["k"] == "aggr" and rv.get("tuple") and idx:
+                        out.append((dbb, rv))
+                    else:
+                        return None
+            return (idx[0], out) if idx and out else None
+
+        def conds_at(bb):
             conds = []
-            for g in gs:
-                if g["src"].get("kind") in ("cmp", "binop") and g.get("discr_local") is not None:
+            for g in switch_guards(pin, bb, dom=dom):
+                src = g["src"]
+                if src.get("kind") == "call" and src["term"]["callee"].get("method") == "len" and g.get("listed") == [1]:
+                    # `match len { 1 => .., _ => .. }`
+                    conds.append(("len==1", g["allowed"] == {1}))
+                    continue
+                if src.get("kind") in ("cmp", "binop") and g.get("discr_local") is not None:
                     d = pin.unique_def(g["discr_local"])
                     if d and d[2] == "assign" and d[3]["rv"]["k"] == "binop" and d[3]["rv"]["op"] == "Eq":
                         sa = Slice(pin).run(d[3]["rv"]["a"])
@@ -141,7 +179,19 @@ def run(ctx):
                         one = any(c.get("val") == 1 for c in sa["consts"] + sb["consts"])
                         kind = "len==1" if "len" in ks and "unique" not in ks and one else ("unique-regions==1" if "unique" in ks and "count" in ks and one else "?")
                         conds.append((kind, 0 not in g["allowed"]))
-            forms[f] = conds
+            return conds
+
+        from ..evtflow import variant_path
+        for bb, t in ups:
+            ta, tb = tuple_defs(t["args"][1]), tuple_defs(t["args"][2])
+            if ta and tb and ta[0] != tb[0] and [x[0] for x in ta[1]] == [x[0] for x in tb[1]]:
+                # the pair is chosen in the arms of a decision and handed over after the join: judge every arm where it is built
+                for dbb, rv in ta[1]:
+                    f = (variant_path(pin, rv["ops"][ta[0]])[0], variant_path(pin, rv["ops"][tb[0]])[0])
+                    forms[f] = conds_at(dbb)
+                continue
+            f = (variant_path(pin, t["args"][1])[0], variant_path(pin, t["args"][2])[0])
+            forms[f] = conds_at(bb)
         want = {("Some", "Some"): [("len==1", True)],
                 ("None", "Some"): [("len==1", False), ("unique-regions==1", True)],
                 ("None", "None"): [("len==1", False), ("unique-regions==1", False)]}
@@ -372,6 +422,50 @@ def run(ctx):
         ctx.ob("R8.pin-state-lookups-complete", "FakePlatform::pin_current_thread_to.overwrites", ok, b.loc(),
                f"the thread's allowed set is (re)assigned on every path: per path {pc}; insert-if-absent forms used: {lazy or 'none'}" +
                ("" if ok else " - a second pin of the same thread keeps the first affinity"))
+
+    # ---------------- R9: the by-id processor table is filled by id
+    fpb = prog.one("system_hardware::SystemHardware::from_platform")
+    if fpb is None:
+        ctx.missing("R9.table-filled-by-id", "SystemHardware::from_platform")
+    else:
+        ctx.fn(fpb)
+        news = [(bb, t) for bd in [fpb] for bb, t in bd.calls() if callee_key(t["callee"]).endswith("processor::Processor::new") and not bd.blocks[bb].cleanup]
+        n9 = 0
+        for bb, t in news:
+            # where does the Some(Processor::new(..)) go?
+            res = {t["dest"]["l"]}
+            stores = []
+            changed = True
+            while changed:
+                changed = False
+                for blk in fpb.blocks:
+                    for st in blk.stmts:
+                        if st["k"] != "assign":
+                            continue
+                        rv = st["rv"]
+                        ops = rv.get("ops", []) if rv["k"] == "aggr" else ([rv["op"]] if rv["k"] == "use" else [])
+                        if any(op_local(o) in res for o in ops):
+                            if st["place"]["p"]:
+                                if (blk.idx, id(st)) not in [(x, id(y)) for x, y in stores]:
+                                    stores.append((blk.idx, st))
+                            elif st["place"]["l"] not in res:
+                                res.add(st["place"]["l"])
+                                changed = True
+            for sbb, st in stores:
+                n9 += 1
+                sl = Slice(fpb).run({"k": "copy", "place": {"l": st["place"]["l"], "p": []}})
+                calls = {k.split("::")[-1] for k, _, _ in sl["calls"]}
+                by_id = bool(calls & {"get_mut", "index_mut", "get_unchecked_mut"}) and "id" in calls
+                positional = sorted(calls & {"zip", "iter_mut", "enumerate", "next", "chunks_mut", "first_mut", "last_mut"})
+                # the id used is that of the processor being stored
+                arg_sl = Slice(fpb).run(t["args"][1]) if len(t["args"]) > 1 else {"locals": set()}
+                same = bool((arg_sl["locals"] & sl["locals"]) - {0})
+                ok = by_id and not (set(positional) - {"next"}) and same
+                ctx.ob("R9.table-filled-by-id", f"from_platform.store#{n9}", ok, fpb.loc(st["span"]),
+                       f"slot reference derives from {sorted(calls)}: indexed by the stored processor's own id: {by_id and same}; positional adaptors: {positional or 'none'}" +
+                       ("" if ok else " - with gaps in the id space (offline / disallowed processors) processor k lands in slot j != k and every lookup by id answers with another processor or the fallback"))
+        if n9 == 0:
+            ctx.missing("R9.table-filled-by-id", "the store of Some(Processor::new(..)) into the by-id table in from_platform")
 
     # ---------------- rules shared with C09 (same builder)
     ctx.import_rules("C09", {
